@@ -270,31 +270,37 @@ class Gen:
         return f"({name} := {src})", kind
 
     def comp_clauses(self, d):
-        clauses = []
+        """-> [(clause source, {name: kind before})].  Python makes every name bound by any clause local to the whole
+        comprehension (reading it before its clause binds it is an UnboundLocalError, while pyscript would read the
+        enclosing variable - noted in notes/C01.md, outside what is generated): all loop variable names are chosen first
+        and hidden from the expressions generated before their binding."""
+        rng = self.rng
+        plan = []
         bound = []
-        for _ in range(self.rng.choice([1, 1, 1, 2])):
-            var = self.rng.choice(["i", "j", "x", "y"])
+        for _ in range(rng.choice([1, 1, 1, 2])):
+            var = rng.choice(["i", "j", "x", "y"])
             while var in bound:
                 var = var + "2"
+            new = [var, var + "b"] if rng.random() < 0.15 else [var]
+            bound += new
+            plan.append(new)
+        hidden = {n: self.vars.pop(n) for n in bound if n in self.vars}
+        clauses = []
+        for new in plan:
             it = self.as_iter(self.expr(d + 1))
-            if self.rng.random() < 0.15:
-                var2 = var + "b"
-                target = f"{var}, {var2}"
-                new = [var, var2]
-                if self.rng.random() < 0.6:
-                    it = self.rng.choice(["[(1, 2), (3, 4)]", self.wrap("[(1, 2), (3, 4)]"), self.wrap("{'a': 1}") + ".items()",
-                                          "[(1, 2, 3)]"])
+            if len(new) == 2:
+                target = f"{new[0]}, {new[1]}"
+                if rng.random() < 0.6:
+                    it = rng.choice(["[(1, 2), (3, 4)]", self.wrap("[(1, 2), (3, 4)]"), self.wrap("{'a': 1}") + ".items()",
+                                     "[(1, 2, 3)]"])
             else:
-                target = var
-                new = [var]
-            # the loop variables are visible to what follows inside the comprehension only
-            saved = {n: self.vars.get(n) for n in new}
+                target = new[0]
+            saved = {n: hidden.get(n) for n in new}
             for n in new:
                 self.vars[n] = "N"
                 self.loopvars.append(n)
-            bound += new
             cl = f"for {target} in {it}"
-            for _ in range(self.rng.choice([0, 0, 1, 2])):
+            for _ in range(rng.choice([0, 0, 1, 2])):
                 cl += f" if {self.expr(d + 1)[0]}"
             clauses.append((cl, saved))
         return clauses
